@@ -151,7 +151,7 @@ var softKeywords = []string{"status", "date", "text", "time", "offset", "view", 
 var hardKeywords = []string{"select", "from", "where", "order", "group", "key", "table", "index", "by", "limit", "values", "set", "join", "on", "and", "or", "not", "null", "true", "case", "default", "desc", "in", "is", "like", "union", "update", "delete", "insert", "into", "as", "div", "mod", "interval", "exists", "match", "left", "right", "if", "replace", "database", "schema", "current_date", "to", "use", "using", "for", "lock", "all", "returning", "year", "day", "hour", "partition", "xor", "sql", "range"}
 
 // names that only exist quoted
-var oddNames = []string{"a b", "a-b", "1a", "a.b", "Ünï", "a'b", "a(b)", "x;y", "$1", "a?b", "select 1", " lead", "trail "}
+var oddNames = []string{`a\b`, "a b", "a-b", "1a", "a.b", "Ünï", "a'b", "a(b)", "x;y", "$1", "a?b", "select 1", " lead", "trail "}
 
 // quoteIdent spells name as a quoted identifier of the dialect, escaping the quote by doubling.
 func (g *gen) quoteIdent(name string) string {
@@ -247,9 +247,9 @@ func (g *gen) colAlias() string {
 	case 0:
 		a = g.ident("alias")
 	case 1:
-		a = "'" + g.oneOf("alias.sq", "x", "My Col", "a''b", "sum") + "'"
+		a = "'" + g.oneOf("alias.sq", "x", "My Col", "a''b", "sum", `a\\b`, `tab\t`) + "'"
 	default:
-		a = `"` + g.oneOf("alias.dq", "x", "My Col", `a""b`, "count") + `"`
+		a = `"` + g.oneOf("alias.dq", "x", "My Col", `a""b`, "count", `a\\b`) + `"`
 	}
 	if g.chance("alias.as", 60) {
 		return g.kw("as") + " " + a
@@ -672,6 +672,14 @@ func (g *gen) funcCall(d int) string {
 	switch g.weighted("f.cls", 8, 4, 3, 3, 2, 1, 1, 1, 1, 1) {
 	case 0:
 		name := g.oneOf("f.name", genericFuncs...)
+		if g.chance("f.quoted", 6) {
+			// quoted function name: case-sensitive in PostgreSQL
+			if g.pg {
+				name = `"` + g.oneOf("f.qname", "MyFunc", "f", "Upper") + `"`
+			} else {
+				name = "`" + g.oneOf("f.qname", "f", "my_func", "Upper") + "`"
+			}
+		}
 		if g.chance("f.qual", 8) {
 			name = g.plainIdent("f.q") + "." + name
 		}
@@ -734,7 +742,7 @@ func (g *gen) funcCall(d int) string {
 			s += " " + g.orderBy(d-1)
 		}
 		if g.chance("f.gcs", 50) {
-			s += " " + g.kw("separator") + " " + g.oneOf("f.gcsep", "','", "'; '", "' '", `"|"`, "''")
+			s += " " + g.kw("separator") + " " + g.oneOf("f.gcsep", "','", "'; '", "' '", `"|"`, "''", "'a''b'", `'\\'`, `'\n'`, "'\t'")
 		}
 		return s + ")"
 	case 8:
